@@ -27,13 +27,14 @@ STEP_BUDGET_S = float(os.environ.get("VERIF_STEP_BUDGET", "20"))
 
 
 def _on_alarm(signum, frame):
-    raise StepTimeout(f"step did not finish within {STEP_BUDGET_S:.0f} s")
+    raise StepTimeout(f"step did not finish within {STEP_BUDGET_S:.0f} s of CPU time")
 
 
 def install_watchdog():
+    """per-step budget in *CPU* time (ITIMER_PROF), so a loaded machine cannot trip it"""
     import signal
 
-    signal.signal(signal.SIGALRM, _on_alarm)
+    signal.signal(signal.SIGPROF, _on_alarm)
 
 
 def import_xgi():
@@ -127,14 +128,14 @@ class Sim:
     def exec_step(self, rec):
         import signal
 
-        armed = signal.getsignal(signal.SIGALRM) is _on_alarm
+        armed = signal.getsignal(signal.SIGPROF) is _on_alarm
         if armed:
-            signal.setitimer(signal.ITIMER_REAL, STEP_BUDGET_S)
+            signal.setitimer(signal.ITIMER_PROF, STEP_BUDGET_S)
         try:
             self._exec_step(rec)
         finally:
             if armed:
-                signal.setitimer(signal.ITIMER_REAL, 0)
+                signal.setitimer(signal.ITIMER_PROF, 0)
 
     def _exec_step(self, rec):
         w = self.world
